@@ -18,11 +18,27 @@ def cases(draw, procs=False):
     for L in spec['layers']:
         if draw(st.integers(0, 99)) < 60:
             L['hooks'] = sorted(set(L['hooks']) | {'setUp', 'tearDown'}, key=gen.HOOKS.index)
+    if procs and draw(st.integers(0, 2)) == 0:
+        # a row of unrelated layers; the first cannot be torn down, so the others run one after the other in
+        # subprocesses - and one of those has the first bad test
+        n = draw(st.integers(3, 4))
+        layers = [{'name': nm, 'kind': 'class', 'bases': [], 'hooks': ['setUp', 'tearDown']} for nm in gen.LAYER_NAMES[:n]]
+        layers[0]['faults'] = {'tearDown': 'NIE'}
+        bad_at = draw(st.integers(1, n - 1))
+        ch = []
+        for i in range(n):
+            tests = draw(gen.tests_list(kinds=('pass', 'skip_body'), max_tests=2))
+            if i == bad_at:
+                tests[draw(st.integers(0, len(tests) - 1))]['k'] = draw(st.sampled_from(['fail', 'error', 'uxsuccess']))
+                for t in tests:
+                    t.setdefault('exc', 'ValueError')
+            ch.append({'t': 'c', 'name': 'TC%d' % (i + 1), 'layer': i, 'tests': tests})
+        spec = {'layers': layers, 'modules': [{'name': 'a', 'tree': {'t': 's', 'ch': ch}}], 'row': True}
     opts = {'stop': True, 'verbose': draw(st.integers(0, 2)), 'repeat': draw(st.sampled_from([1, 1, 2, 3])),
             'shuffle': draw(st.one_of(st.none(), st.integers(0, 999))),
             'buffer': draw(st.sampled_from([False, False, True]))}
     if procs:
-        opts['j'] = draw(st.sampled_from([None, 2]))
+        opts['j'] = None if spec.get('row') else draw(st.sampled_from([None, 2]))
     return {'spec': spec, 'opts': opts}
 
 
@@ -76,6 +92,23 @@ def oracle(spec, opts, run):
         for sig, msg in traceana.check_layer_stack(w, evs, ''):
             if sig in ('C01/never-torn-down', 'C01/teardown-count'):
                 viol.append(('C16/' + sig[4:], msg))
+    # sequential run whose later layers were resumed in subprocesses (no -j): the processes run one after the other, so
+    # the events of all of them are totally ordered in time; after the first bad test ended (or a layer set-up failed),
+    # no layer may be set up any more - in whichever process
+    if len(pids) > 1 and (opts.get('j') or 1) <= 1 and all('t' in e for e in run.trace):
+        evs = sorted(run.trace, key=lambda e: e['t'])
+        t_bad = None
+        what = None
+        for e in evs:
+            if t_bad is None:
+                if e['ev'] == 'T' and e['ph'] == 'ran' and _is_bad(w, e['id']):
+                    t_bad, what = e['t'], 'test %s' % e['id']
+                elif e['ev'] == 'L' and e['h'] == 'setUp' and e['ph'] == 'raise':
+                    t_bad, what = e['t'], 'setUp of layer %s' % e['layer']
+            elif e['ev'] == 'L' and e['h'] == 'setUp' and e['ph'] == 'enter':
+                viol.append(('C16/layer-set-up-after-failure/resumed',
+                             'layer %s was set up (in a layer subprocess) after %s had failed' % (e['layer'], what)))
+                break
     bad_started = [tid for _, tid in common.test_starts(run.trace) if _is_bad(w, tid)]
     p = parse.parse(run.out)
     if bad_started or any_bad:
@@ -172,7 +205,8 @@ class C16(Prop):
     rule = ('Hypothesis worlds (0..4 layers, tests 75% good, bad ones of 10 kinds, failing layer setUp / tearDown hooks), options -x always, --repeat 1..3, '
             '--shuffle, --buffer; procs part adds NotImplementedError tear-downs and -j2; importerr part adds 1..2 modules that fail to import (real discovery). Non-trivial = a bad test '
             'started and fewer tests started than were selected (something was really cut off).')
-    assumptions = ('for resumed / -j runs only the per-process clause is checked',)
+    assumptions = ('for -j N runs only the per-process clause is checked; runs whose layers are resumed one after the other '
+                   'in subprocesses are sequential runs: no layer may be set up after the first failure in any process',)
     parts = (InProc(), Procs(), ImportErrors())
 
 
